@@ -1871,12 +1871,11 @@ class VM:
         self, func: JSFunction, this_val: JSValue, args: List[JSValue]
     ) -> JSValue:
         """Internal method to call a function with explicit this and args."""
-        # Handle bound functions
-        if hasattr(func, "_bound_this"):
+        # Handle bound functions (a bound function may itself be bound again:
+        # the innermost this wins, every level contributes its arguments)
+        while hasattr(func, "_original_func"):
             this_val = func._bound_this
-        if hasattr(func, "_bound_args"):
             args = list(func._bound_args) + list(args)
-        if hasattr(func, "_original_func"):
             func = func._original_func
 
         # Run the callee to completion (and only the callee: the rest of
@@ -2724,12 +2723,11 @@ class VM:
         new_target: JSValue = None,
     ) -> None:
         """Invoke a JavaScript function."""
-        # Handle bound functions
-        if hasattr(func, "_bound_this"):
+        # Handle bound functions (a bound function may itself be bound again:
+        # the innermost this wins, every level contributes its arguments)
+        while hasattr(func, "_original_func"):
             this_val = func._bound_this
-        if hasattr(func, "_bound_args"):
             args = list(func._bound_args) + list(args)
-        if hasattr(func, "_original_func"):
             func = func._original_func
         if hasattr(func, "_lexical_this"):
             this_val = func._lexical_this  # arrow function: call form and bind are ignored
